@@ -2052,11 +2052,15 @@ parse_citation:
 			print_const("\\");
 
 		case PAIR_RAW_FILTER:
-		case RAW_FILTER_LEFT:
 		case TEXT_NUMBER_POSS_LIST:
 		case TEXT_PERIOD:
 		case TEXT_PLAIN:
 			print_token(t);
+			break;
+
+		case RAW_FILTER_LEFT:
+			// An opener without its closing brace is ordinary text
+			print_const("\\{=");
 			break;
 
 		case TOC:
